@@ -152,7 +152,7 @@ Section Sound.
     intros a intry n s k Hle. unfold do_atom.
     destruct (if intry then fault E n else NoFault) eqn:Hf.
     - (* no fault *)
-      destruct a as [ | | f c | f c | pth d | t | t | | id ];
+      destruct a as [ | | f c | f c | pth d | t | t | | id | lk ls ];
         try (unfold ai_atom, post; simpl; intros Hok; split;
              [ eapply exec_step_ok; eauto | apply ale_some, mstep_mono; auto ]).
       + (* ASet *)
@@ -171,7 +171,7 @@ Section Sound.
         rewrite (Hnf eq_refl) in Hf. discriminate. }
       unfold post; simpl. intros _. split; auto.
       unfold ai_atom. rewrite Hx.
-      destruct a as [ | | f c | f c | pth [|] | t | t | | id ]; simpl;
+      destruct a as [ | | f c | f c | pth [|] | t | t | | id | lk ls ]; simpl;
         try (apply ale_some; auto).
       destruct (F Structured); simpl; apply ale_some; auto.
     - (* another exception strikes *)
@@ -180,7 +180,7 @@ Section Sound.
         rewrite (Hnf eq_refl) in Hf. discriminate. }
       unfold post; simpl. intros _. split; auto.
       unfold ai_atom. rewrite Hx.
-      destruct a as [ | | f c | f c | pth [|] | t | t | | id ]; simpl;
+      destruct a as [ | | f c | f c | pth [|] | t | t | | id | lk ls ]; simpl;
         try (apply ale_some; auto).
       destruct (F Structured); simpl; apply ale_some; auto.
   Qed.
@@ -1068,3 +1068,117 @@ Proof.
   split; [reflexivity|]. split; [reflexivity|]. split; [apply cenv_no_faults|].
   split; [vm_compute; reflexivity|]. vm_compute. repeat constructor.
 Qed.
+
+
+(* ---- (6') round 5: no empty data loader reaches Trainer.fit ------------------- *)
+
+Definition cfg_steps_valid (cfg : option nat) : Prop := forall c, cfg = Some c -> 1 <= c.
+
+Lemma steps_val_zero : forall s cfg n b, cfg_steps_valid cfg ->
+  steps_val s cfg n b = Some 0 -> may_be_zero s = true.
+Proof.
+  induction s as [| | k | | a IH | a IHa d IHd]; intros cfg n b Hc H; simpl in *.
+  - apply Hc in H. inversion H.
+  - reflexivity.
+  - inversion H. reflexivity.
+  - discriminate.
+  - destruct (steps_val a cfg n b) as [[|m]|]; discriminate.
+  - destruct (steps_val a cfg n b) as [m|] eqn:Ea.
+    + rewrite H in Ea. rewrite (IHa cfg n b Hc Ea). reflexivity.
+    + rewrite (IHd cfg n b Hc H). apply orb_true_r.
+Qed.
+
+Lemma steps_positive_lemma : forall s, may_be_zero s = false ->
+  forall cfg n b, cfg_steps_valid cfg -> 1 <= n -> 1 <= b -> 1 <= loader_len (steps_val s cfg n b) n b.
+Proof.
+  intros s Hs cfg n b Hc Hn Hb.
+  destruct (steps_val s cfg n b) as [[|m]|] eqn:Ev; simpl.
+  - rewrite (steps_val_zero s cfg n b Hc Ev) in Hs. discriminate.
+  - apply le_n_S, Nat.le_0_l.
+  - apply Nat.div_le_lower_bound; lia.
+Qed.
+
+Lemma loop_exec_Forall : forall (P : atom -> Prop) body k n,
+  (forall n, Forall P (fst (fst (body n)))) -> Forall P (fst (fst (loop_exec body k n))).
+Proof.
+  intros P body k. induction k as [|k IH]; intros n Hb; simpl.
+  - constructor.
+  - specialize (Hb n) as Hn. destruct (body n) as [[t1 n1] o1]. simpl in Hn.
+    destruct o1; simpl; try exact Hn.
+    specialize (IH n1 Hb). destruct (loop_exec body k n1) as [[t2 n2] o2]. simpl in *.
+    apply Forall_app. split; assumption.
+Qed.
+
+Lemma exec_loaders_ok : forall p, loaders_ok p = true ->
+  forall E intry n, Forall (fun a => loader_ok a = true) (fst (fst (exec E intry p n))).
+Proof.
+  induction p as [|a IHa b IHb|a|c th IHt el IHe|id body IH|body IHb ck fin IHf]; intros H E intry n; simpl in *.
+  - constructor.
+  - apply andb_prop in H as [Ha Hb].
+    specialize (IHa Ha E intry n). destruct (exec E intry a n) as [[t1 n1] o1]. simpl in IHa.
+    destruct o1; simpl; try exact IHa.
+    specialize (IHb Hb E intry n1). destruct (exec E intry b n1) as [[t2 n2] o2]. simpl in *.
+    apply Forall_app. split; assumption.
+  - unfold do_atom. destruct (if intry then fault E n else NoFault); simpl; try constructor.
+    destruct a as [| |f c|f c|pth d|t|t| |i|k s]; simpl;
+      try (constructor; [exact H|constructor]); try constructor.
+    destruct d; [constructor; [exact H|constructor]|].
+    destruct (fl E Structured); simpl; [constructor|constructor; [exact H|constructor]].
+  - apply andb_prop in H as [Ht He]. destruct (ceval E c); [apply IHt|apply IHe]; assumption.
+  - apply loop_exec_Forall. intro m. apply IH. exact H.
+  - apply andb_prop in H as [Hb Hf].
+    specialize (IHb Hb E true n). destruct (exec E true body n) as [[t1 n1] o1]. simpl in IHb.
+    specialize (IHf Hf E intry n1). destruct (exec E intry fin n1) as [[t2 n2] o2]. simpl in *.
+    apply Forall_app. split; assumption.
+Qed.
+
+Theorem loaders_never_empty_lemma : forall p, loader_steps_contract p = true ->
+  forall E k s, In (ALoader k s) (trace E p) ->
+  forall cfg n b, cfg_steps_valid cfg -> 1 <= n -> 1 <= b -> 1 <= loader_len (steps_val s cfg n b) n b.
+Proof.
+  intros p H E k s Hin cfg n b Hc Hn Hb. unfold loader_steps_contract in H. apply andb_prop in H as [Hok _].
+  pose proof (exec_loaders_ok p Hok E false 0) as HF. rewrite Forall_forall in HF.
+  specialize (HF _ Hin). simpl in HF. apply negb_true_iff in HF.
+  exact (steps_positive_lemma s HF cfg n b Hc Hn Hb).
+Qed.
+
+Theorem loaders_built_lemma : forall p, loader_steps_contract p = true ->
+  forall c, valid_cell (cell_flags c) = true -> result (cenv p c None) p = Ok ->
+  exists st sv, In (ALoader LTrain st) (before_fit (trace (cenv p c None) p)) /\
+                In (ALoader LVal sv) (before_fit (trace (cenv p c None) p)).
+Proof.
+  intros p H c Hv Hr. unfold loader_steps_contract in H. apply andb_prop in H as [_ Hb].
+  unfold loaders_built in Hb. rewrite forallb_forall in Hb. specialize (Hb c (all_cells_complete c)).
+  rewrite Hv, Hr in Hb. simpl in Hb. apply andb_prop in Hb as [H1 H2].
+  apply existsb_exists in H1 as (a1 & Hi1 & Ha1). apply existsb_exists in H2 as (a2 & Hi2 & Ha2).
+  destruct a1 as [| | | | | | | | |[|] s1]; try discriminate.
+  destruct a2 as [| | | | | | | | |[|] s2]; try discriminate.
+  exists s1, s2. split; assumption.
+Qed.
+
+(* the completion statement with its presumption discharged: the run ends normally (or is rejected), and every
+   loader it built on the way has at least one step per epoch whatever the dataset and batch sizes *)
+Theorem run_completes_with_loaders_lemma : forall p, completes p = true -> loader_steps_contract p = true ->
+  forall E, valid_cell (fl E) = true -> (forall i, fault E i = NoFault) ->
+  (result E p = Ok \/ result E p = ExnInvalid) /\
+  (forall k s, In (ALoader k s) (trace E p) ->
+   forall cfg n b, cfg_steps_valid cfg -> 1 <= n -> 1 <= b -> 1 <= loader_len (steps_val s cfg n b) n b).
+Proof.
+  intros p Hc Hl E Hv Hnf. split.
+  - exact (run_completes_sound_lemma p Hc E Hv Hnf).
+  - intros k s Hin. exact (loaders_never_empty_lemma p Hl E k s Hin).
+Qed.
+
+(* non-vacuity: the unguarded floor division is rejected, and it really is an empty loader when the batch size
+   exceeds the number of samples; the guarded forms are accepted *)
+Lemma unguarded_loader_rejected :
+  (loaders_ok (Do (ALoader LVal StFloorDiv)), loader_len (steps_val StFloorDiv None 1 2) 1 2,
+   loaders_ok (Do (ALoader LVal (StAtLeast1 StFloorDiv))), loader_len (steps_val (StAtLeast1 StFloorDiv) None 1 2) 1 2,
+   loaders_ok (Do (ALoader LTrain (StIfNone StConfig StFloorDiv))),
+   loader_len (steps_val (StIfNone StConfig StFloorDiv) None 2 4) 2 4,
+   loader_len (steps_val StDefault None 1 2) 1 2)
+  = (false, 0, true, 1, false, 0, 1).
+Proof. vm_compute. reflexivity. Qed.
+
+Lemma reference_loader_steps : forall b14 b15, loader_steps_contract (reference b14 b15) = true.
+Proof. intros [|] [|]; vm_compute; reflexivity. Qed.
